@@ -83,6 +83,18 @@ func (e *QuotaErr) FromJSONRPCError(j jsonrpc.JSONRPCError) error {
 	return nil
 }
 
+// BrokenCodecErr: a codec-style error whose conversion to the wire form fails.
+type BrokenCodecErr struct{ Msg string }
+
+func (e *BrokenCodecErr) Error() string { return "broken:" + e.Msg }
+func (e *BrokenCodecErr) ToJSONRPCError() (jsonrpc.JSONRPCError, error) {
+	return jsonrpc.JSONRPCError{}, errors.New("cannot convert")
+}
+func (e *BrokenCodecErr) FromJSONRPCError(j jsonrpc.JSONRPCError) error {
+	e.Msg = j.Message
+	return nil
+}
+
 type H struct {
 	kind int
 	msg  string
@@ -104,6 +116,8 @@ func (h *H) mk() error {
 		return &CodecErr{Detail: h.msg, K: h.n}
 	case 5:
 		return QuotaErr{N: h.n}
+	case 6:
+		return &BrokenCodecErr{Msg: h.msg}
 	}
 	return nil
 }
@@ -148,7 +162,7 @@ func table(which int, altCodes bool) *jsonrpc.Errors {
 
 // HarnessErrors: handler outcome x error type x registration tables x method shape x transport.
 func HarnessErrors() {
-	h := &H{kind: verif.Choice("kind", 6), msg: verif.String("msg", 3), n: verif.Int("n")}
+	h := &H{kind: verif.Choice("kind", 7), msg: verif.String("msg", 3), n: verif.Int("n")}
 	verif.Assume(h.n >= -(1<<53) && h.n <= 1<<53)
 	srvTab := verif.Choice("server_table", 3)
 	cliTab := verif.Choice("client_table", 3)
@@ -247,6 +261,9 @@ func HarnessErrors() {
 		} else {
 			verif.Assert(got != nil, "conversion-never-nil")
 		}
+	case 6:
+		// the server-side conversion fails: the error must still arrive, as the generic error
+		generic("broken:"+h.msg, 1)
 	case 5:
 		// the conversion fails on the client (strict decoder): it must degrade to the generic error
 		// (the value form does not implement the codec interface, so the server sends the plain message
